@@ -11,7 +11,8 @@ TARGETS = ["theories/Properties/C08.vo"]
 PROPERTIES_FILE = "theories/Properties/C08.v"
 IMPL = "harness.props.c08_impl"
 TABLE_DEPS = ["arity_dispatch_cmp", "arity_apply_to_shape", "arity_apply_shape", "arity_unwrap_shape",
-              "arity_partial_shape", "arity_trampoline_shape", "arity_analyzer_rule"]
+              "arity_partial_shape", "arity_partial_cmp", "arity_trampoline_shape", "arity_tramp_nil",
+              "arity_recur_flag", "arity_analyzer_rule"]
 TAGGED = True
 SHARD = 500
 HARD_TIMEOUT = 60
@@ -42,11 +43,14 @@ ASSUMPTIONS = ["argument values are distinct small integers; binding does not de
                "an infinite tail is a lazy seq that raises a marker exception when realized beyond 200 elements",
                "recur values are one level deep: nil, numbers, ISeqs/vectors of numbers, one infinite lazy seq",
                "no keyword-argument support (:kwargs metadata), no async fns, no deftype methods"]
+# Open findings (signature = defect tag computed by the model side, see `tag` in C08/Corr.v).
+# F-08a/b are repaired in the working tree and have no signature: if a repair is reverted the
+# model follows the source (regenerated flags), the implementation then equals the model but not
+# the spec, and no open finding explains it -> VIOLATION (and the table obligations break).
 FINDINGS = {
-    "F-08a": lambda c, o, tag: bool(tag & 2),
-    "F-08b": lambda c, o, tag: bool(tag & 4),
     "F-08c": lambda c, o, tag: bool(tag & 8),
     "F-08d": lambda c, o, tag: bool(tag & 1),
+    "F-08e": lambda c, o, tag: bool(tag & 2),
 }
 EXHAUSTIVE = {"quick": False, "thorough": True}
 
